@@ -269,6 +269,65 @@ def coq_eval_cases(tag, imports, run_fn, eqb, cases, shard=600, timeout=900, ext
     return sorted(fails), err
 
 
+def coq_str(s):
+    """Python str -> Coq string term (printable ASCII literal, else sb [bytes])."""
+    b = s.encode("utf-8")
+    if all(0x20 <= c < 0x7F for c in b):
+        return '"' + s.replace('"', '""') + '"'
+    return "(sb [" + ";".join(str(c) for c in b) + "])"
+
+
+def coq_eval_codes(tag, imports, code_fn, cases, shard=300, timeout=1200):
+    """cases: list of argument strings; evaluates `code_fn <args>` : N for each inside Coq and
+    returns (list of ints (None where evaluation failed), error log or None)."""
+    d = os.path.join(CACHE, "cases", f"{tag}_c{os.getpid()}")
+    shutil.rmtree(d, ignore_errors=True)
+    os.makedirs(d)
+    shards = [cases[i:i + shard] for i in range(0, len(cases), shard)]
+    res = [None] * len(cases)
+    err = None
+
+    def launch(k, sc):
+        f = os.path.join(d, f"codes{k}.v")
+        with open(f, "w") as fh:
+            fh.write("From Coq Require Import NArith ZArith List String.\nImport ListNotations.\nOpen Scope string_scope.\n")
+            fh.write(imports + "\n")
+            fh.write("Definition codes : list N := [\n")
+            fh.write(";\n".join(f"({code_fn} {c})" for c in sc))
+            fh.write("\n].\n")
+            fh.write('Goal True. idtac "@@RESULT". Abort.\nEval vm_compute in codes.\nGoal True. idtac "@@DONE". Abort.\n')
+        return subprocess.Popen(["coqc", "-noglob", "-Q", COQ, "Aelys", "-w", "-all", f], cwd=d,
+                                stdout=subprocess.PIPE, stderr=subprocess.STDOUT, text=True)
+    pending = list(enumerate(shards))
+    running = []
+    t0 = time.time()
+    while pending or running:
+        while pending and len(running) < NCPU:
+            k, sc = pending.pop(0)
+            running.append((k, launch(k, sc)))
+        k, p = running.pop(0)
+        try:
+            out, _ = p.communicate(timeout=max(10, timeout - (time.time() - t0)))
+        except subprocess.TimeoutExpired:
+            p.kill()
+            err = (err or "") + f"\nshard {k}: timeout"
+            continue
+        m = re.search(r"@@RESULT\n(.*?)@@DONE", out, flags=re.S)
+        if p.returncode != 0 or not m:
+            err = (err or "") + f"\nshard {k}: coqc failed:\n{out[-3000:]}"
+            continue
+        body = m.group(1)
+        body = body[:body.rfind(":")]
+        nums = [int(x) for x in re.findall(r"\d+", body.replace("%N", ""))]
+        if len(nums) != len(shards[k]):
+            err = (err or "") + f"\nshard {k}: expected {len(shards[k])} codes, got {len(nums)}"
+            continue
+        for i, n in enumerate(nums):
+            res[k * shard + i] = n
+    shutil.rmtree(d, ignore_errors=True)
+    return res, err
+
+
 def coq_eval_terms(tag, imports, terms, timeout=600):
     """Evaluate each term with vm_compute and return the raw printed results (for replays)."""
     d = os.path.join(CACHE, "cases", f"{tag}_t{os.getpid()}")
@@ -323,7 +382,7 @@ class Ctx:
         """translate -> make Props/<mod>.vo -> forbidden scan -> Print Assumptions.
         Returns True when every obligation is discharged."""
         ok_all = True
-        tr = extract.run(extracted)
+        tr = extract.run(extracted) if extracted else {}
         for n, e in tr.items():
             if e:
                 ok_all = False
